@@ -132,7 +132,10 @@ def diff_form(e, varname):
     return None
 
 
-def rule_M7(chk, u, cls="TaskQueue", array="_queue"):
+HANDED, GAPW, REMOVED = -1, -2, -3
+
+
+def rule_M7(chk, u, cls="TaskQueue", array="_queue", gap_chk=None, gap_rule="Q4"):
     methods = [m for m in u.methods_of(cls) if m.get("body") is not None and not m.get("dependent")]
     if not methods:
         raise AnalysisBroken("%s has no methods" % cls)
@@ -206,7 +209,7 @@ def rule_M7(chk, u, cls="TaskQueue", array="_queue"):
         for p in m["params"]:
             if "unsigned" in (p.get("t") or "") and "id" in p:
                 locs[p["id"]] = "%s#p" % p["n"]
-        names = ["0", size_member] + sorted(members) + sorted(locs.values())
+        names = ["0", size_member] + sorted(members) + sorted(locs.values()) + ["g#"]
 
         def varname(e, locs=locs):
             e = C.strip_casts(e)
@@ -359,6 +362,12 @@ def rule_M7(chk, u, cls="TaskQueue", array="_queue"):
                 flagsets = [flags]
                 if body.get("k") == "Decl":
                     for d in body["d"]:
+                        i0_ = C.strip_casts(d["init"]) if d.get("init") is not None else None
+                        if i0_ is not None and i0_.get("k") == "Idx" and C.member_name(i0_["a"]) == array:
+                            lg = lin(i0_["i"], varname)
+                            if lg is not None:
+                                z.assign("g#", lg[0], lg[1])
+                                flagsets = [set_flag(set_flag(f, HANDED, True), GAPW, False) for f in flagsets]
                         if d["id"] in locs:
                             v = locs[d["id"]]
                             z.forget(v)
@@ -377,6 +386,36 @@ def rule_M7(chk, u, cls="TaskQueue", array="_queue"):
                             v = varname(x["x"])
                             if v:
                                 z.assign(v, v, 1 if "++" in x["op"] else -1)
+                            if v in members and "--" in x["op"]:
+                                flagsets = [set_flag(f, REMOVED, True) for f in flagsets]
+                        elif kk == "Bin" and x.get("op") == "=" and C.strip_casts(x["b"]).get("k") == "Idx" and \
+                                C.member_name(C.strip_casts(x["b"])["a"]) == array and \
+                                C.strip_casts(x["a"]).get("k") == "Ref" and \
+                                not (C.strip_casts(x["a"]).get("k") == "Idx"):
+                            # the hand-out read `task = queue[e]`: remember the position in a ghost variable
+                            lg = lin(C.strip_casts(x["b"])["i"], varname)
+                            if lg is not None:
+                                z.assign("g#", lg[0], lg[1])
+                                flagsets = [set_flag(set_flag(f, HANDED, True), GAPW, False) for f in flagsets]
+                            v = varname(x["a"])
+                            if v:
+                                z.forget(v)
+                                z.add("0", v, 0)
+                        elif kk == "Bin" and x.get("op") == "=" and C.strip_casts(x["a"]).get("k") == "Idx" and \
+                                C.member_name(C.strip_casts(x["a"])["a"]) == array:
+                            # a store into the array: does it overwrite the handed-out position?
+                            l1 = lin(C.strip_casts(x["a"])["i"], varname)
+                            zc_ = z.copy().close()
+                            if l1 is not None and zc_ is not None and zc_.bound(l1[0], "g#") <= -l1[1] and \
+                                    zc_.bound("g#", l1[0]) <= l1[1]:
+                                flagsets = [set_flag(f, GAPW, True) if dict(f).get(HANDED) else f for f in flagsets]
+                        elif kk == "Call" and (x.get("fn") or x.get("n") or "").split("::")[-1] in ("memmove", "memcpy") and \
+                                len(x["a"]) == 3 and addr_index(x["a"][0], array) is not None:
+                            l1 = lin(addr_index(x["a"][0], array), varname)
+                            zc_ = z.copy().close()
+                            if l1 is not None and zc_ is not None and zc_.bound(l1[0], "g#") <= -l1[1] and \
+                                    zc_.bound("g#", l1[0]) <= l1[1]:
+                                flagsets = [set_flag(f, GAPW, True) if dict(f).get(HANDED) else f for f in flagsets]
                         elif kk == "Bin" and x.get("op") == "=" and flag_of(x["a"]) is not None:
                             fid = flag_of(x["a"])
                             flagsets = [set_flag(f, fid, v) for f in flagsets for v in flag_values(x["b"], f)]
@@ -428,6 +467,30 @@ def rule_M7(chk, u, cls="TaskQueue", array="_queue"):
         by_node = {}
         for (nid, flags), z in states.items():
             by_node.setdefault(nid, []).append((flags, z))
+        # Q4: an entry that was handed out does not stay in the live range [0, fill counter)
+        if gap_chk is not None and members:
+            curm = sorted(members)[0]
+            bad_gap = None
+            nh = 0
+            for flags_, z_ in by_node.get(g.exit.id, []):
+                fd = dict(flags_)
+                if not fd.get(HANDED) or not fd.get(REMOVED):
+                    continue
+                nh += 1
+                if fd.get(GAPW):
+                    continue
+                zt = z_.copy()
+                zt.add("g#", curm, -1)          # the handed-out position is still below the fill counter
+                if zt.close() is not None:
+                    bad_gap = z_
+            if nh:
+                gap_chk.require(bad_gap is None, gap_rule, "%s::%s: the position an entry was handed out from is overwritten whenever it "
+                                "is still inside the live range after the removal" % (cls, m["name"]), where(m),
+                                "there is a path on which the handed-out position g satisfies g <= %s - 1 at the end and was never "
+                                "overwritten (only g - %s <= %s is excluded): the task that was handed out stays in the queue and "
+                                "will be handed out again, and the entry that should have filled the gap is lost" %
+                                (curm, curm, bad_gap.bound("g#", curm) if bad_gap is not None else ""), function=m["full"],
+                                construct="gap closed")
         # call sites of private methods of the class: what the caller knows about the arguments
         for node in g.nodes:
             parts = by_node.get(node.id)
